@@ -260,6 +260,10 @@ def _configs(tier):
     # sweep-dependent preconditioner with several sweeps per iteration on several steps: every clone has to follow the sweep index
     out.append(dict(nprocs=2, nlev=1, QI='MIN-SR-FLEX', guess='spread', sweeper='implicit', nsweeps=2))
     out.append(dict(nprocs=3, nlev=1, QI='MIN-SR-FLEX', guess='zero', sweeper='implicit', nsweeps=3))
+    # level parameters the user may pass although the library derives them (dt_initial is always the configured dt): a fixed-step run stays fixed-step,
+    # so nothing about the step size survives a run
+    out.append(dict(nprocs=1, nlev=1, QI='IE', guess='spread', sweeper='implicit', dt_initial=0.0625))
+    out.append(dict(nprocs=2, nlev=2, QI='LU', guess='spread', sweeper='implicit', dt_initial=0.03125))
     return out
 
 
@@ -277,7 +281,7 @@ def _make(cf, extra_hooks=(), shared=None, adaptive=False):
         d = dict(problem_class=test_equation_IMEX, problem_params=dict(lambdas_implicit=lam * 0.6, lambdas_explicit=lam * 0.4, u0=1.0), sweeper_class=imex_1st_order)
     else:
         d = dict(problem_class=testequation0d, problem_params=dict(lambdas=lam, u0=1.0), sweeper_class=generic_implicit)
-    d.update(sweeper_params=sp, level_params=dict(dt=0.125, restol=1e-9, **({'nsweeps': cf['nsweeps']} if cf.get('nsweeps') else {})), step_params=dict(maxiter=25 if cf.get('nsweeps') else 6))
+    d.update(sweeper_params=sp, level_params=dict(dt=0.125, restol=1e-9, **({'nsweeps': cf['nsweeps']} if cf.get('nsweeps') else {}), **({'dt_initial': cf['dt_initial']} if cf.get('dt_initial') else {})), step_params=dict(maxiter=25 if cf.get('nsweeps') else 6))
     if cf['nlev'] == 2:
         d['space_transfer_class'] = mesh_to_mesh
     cp = dict(logger_level=40, hook_class=[LogSolution] + list(extra_hooks), dump_setup=False, mssdc_jac=False)
@@ -330,6 +334,7 @@ def bounded_runs(tier, seed):
         # (b) the same controller again
         r3 = _observe(c1.run(u0=u0, t0=0.0, Tend=Tend))
         rec('same_controller_repeats_bit_identically', cf, r1 == r3, 'second run on the same controller differs')
+        rec('fixed_step_run_leaves_the_configured_step_size', cf, all(L.params.dt == dt for S in c1.MS for L in S.levels), 'level step sizes after the run: ' + str(sorted({L.params.dt for S in c1.MS for L in S.levels})))
         # (b') the same controller after a DIFFERENT (longer) run: nothing of the earlier run may show up
         c4 = _make(cf)
         c4.run(u0=u0 * 0.5, t0=0.25, Tend=0.25 + Tend + dt * n)
